@@ -43,7 +43,7 @@ Proof. exact primary_never_drops. Qed.
 Theorem C27_replicator_bounded : forall holds v q cands sends succ,
   handle_task (cluster_env holds v) q cands = (sends, succ) ->
   length succ <= q /\ incl succ sends /\ incl sends cands
-  /\ (forall n, In n succ -> e_rep (cluster_env holds v) n = true /\ n <> v)
+  /\ (forall n, In n succ -> e_rep (cluster_env holds v) n = RStored /\ n <> v)
   /\ (NoDup cands -> NoDup succ).
 Proof. exact replicator_bounded. Qed.
 
